@@ -277,7 +277,35 @@ def _r412(ctx):
     _c03.r314(ctx, acq, methods, "R-4.12", " - the idle ensemble is excluded from the P matrix and gets no weight at any later step, and no assertion fires")
 
 
+def r414(ctx):
+    """Every completed step credits one unit to each idle ensemble - also a step whose move was
+    rejected (cstep advances all the same). The accumulation loop is therefore on every normal
+    path through treat_output: the only condition on the way to a `frac +=` is the idle test
+    inside its own loop."""
+    rid = "R-4.14"
+    f = ctx.tree.func(REPEX, "REPEX_state.treat_output")
+    cfg = cfg_of(f)
+    accs = [st for st in walk_local(f) if isinstance(st, ast.AugAssign) and _is_traj_frac(st.target)]
+    if not accs:
+        raise AnalysisError("R-4.14: accumulating statement not found")
+    for st in accs:
+        loops = [l for l in loops_of(st) if isinstance(l, (ast.For, ast.While))]
+        outer = loops[-1] if loops else st
+        # conditions that dominate the loop itself (not those inside it)
+        inside = {id(x) for x in ast.walk(outer)}
+        conds = [(ast.unparse(e), t) for e, t, bn in cfg.guards(cfg.node_of(st)) if id(e) not in inside]
+        # a `self._last_prob is None` refresh before the loop is a separate statement and not a guard of it
+        conds = [c for c in conds if "_last_prob" not in c[0]]
+        if conds:
+            ctx.bad(rid, st, f"treat_output records the weights of the idle paths only when `{conds[0][0]}` is {conds[0][1]}: a step that completes otherwise (e.g. a rejected move) advances the step counter but gives no idle ensemble its unit of weight - data-file rows plus live weights no longer add up to one unit per idle ensemble per completed step, permanently",
+                    construct=f"treat_output: weights recorded under {conds[0][0]}")
+        else:
+            ctx.ok(rid, st, "the accumulation loop runs on every normal path through treat_output (only the idle test inside the loop selects)")
+
+
 def run(ctx):
+    ctx.rule("R-4.14", "every completed step - accepted or rejected - credits the idle ensembles: the accumulation loop of treat_output is not under any condition other than its own idle test", floor=1)
+    ctx.attempt(r414, ctx)
     ctx.rule("R-4.7", "a restart keeps the persisted settings, among them the data file the rows are appended to", floor=4)
     ctx.rule("R-4.6", "the weights of a step are recorded before the restart file of that step is written (nothing write_toml serialises - frac, the P-matrix stream - changes after it)", floor=1)
     ctx.rule("R-4.1", "who may write traj_data[...]['frac']", floor=4)
@@ -315,6 +343,7 @@ def run(ctx):
 
 
 VARIANTS = [
+    B("c04-weights-recorded-for-accepted-moves-only", REPEX, "        # record weights\n        locked_trajs = self.locked_paths()\n        if self._last_prob is None:\n            self.prob\n        for idx, live in enumerate(self.live_paths()):\n            if live not in locked_trajs:\n                self.traj_data[live][\"frac\"] += self._last_prob[:-1][idx, :]\n", "        # record weights\n        locked_trajs = self.locked_paths()\n        if self._last_prob is None:\n            self.prob\n        if md_items[\"status\"] == \"ACC\":\n            for idx, live in enumerate(self.live_paths()):\n                if live not in locked_trajs:\n                    self.traj_data[live][\"frac\"] += self._last_prob[:-1][idx, :]\n", "R-4.14", control=True, why="seeded C04_o"),
     B("c04-trial-installed-under-its-own-status", "infretis/core/tis.py", '        if status == "ACC":\n            minus = True if ens_num < 0 else False', '        if trial.status == "ACC":\n            minus = True if ens_num < 0 else False', "R-4.13", control=True, why="seeded C04_m (= C09_j)"),
     B("c04-busy-flags-restored-at-load", REPEX, '            "frac": np.array(frac, dtype="longdouble"),\n        }\n\n    def pattern_header', '            "frac": np.array(frac, dtype="longdouble"),\n        }\n        for enss0, _ in self.locked0:\n            for ens in enss0:\n                self.lock(ens)\n\n    def pattern_header', "R-4.12", control=True, why="seeded C04_j"),
     B("c04-resort-protects-one-path-per-job", REPEX, "            locks = self.locked_paths()\n            zero_idx", "            locks = [int(pnums[0]) for _, pnums in self.locked]\n            zero_idx", "R-4.11", control=True, why="seeded C04_i"),
